@@ -60,6 +60,13 @@ def Shape.errStr : Shape → String
   | .two none => ""
   | .two (some m) => m
 
+/-- what a `utils.Call` that "normalises" its result list makes of a return (the definite wrong thing the model does
+    when `ucResultsUntouched = false`): the error is gone -/
+def Shape.dropErr : Shape → Shape
+  | .oneErr _ => .oneErr none
+  | .two _ => .two none
+  | r => r
+
 def Shape.isTwo : Shape → Bool
   | .two _ => true
   | _ => false
@@ -167,7 +174,9 @@ def step (sk : Skeleton) (s : State) : Act → Option State
     else none
   | .start => if s.pc = .resolved then some { s with pc := .running, appCodeRan := true } else none
   | .handlerReturns r =>   -- `CallClosure` has two results
-    if s.pc = .running ∧ (s.isClosureEntry = false ∨ r.isTwo = true) then some { s with pc := .returned r } else none
+    -- (`utils.Call` hands the results back as they are: `ucResultsUntouched`)
+    if s.pc = .running ∧ (s.isClosureEntry = false ∨ r.isTwo = true) then
+      some { s with pc := .returned (if sk.ucResultsUntouched then r else r.dropErr) } else none
   | .handlerPanics p => if s.pc = .running then some (outerPanic sk s p) else none
   | .closurePanics p => if s.pc = .running ∧ s.isClosureEntry = true then some (innerPanic sk s p) else none
   | .marshalOk => match s.pc with   -- (`reqRespShapesOk = false`: the error is dropped, as in Wire.mkResponse)
